@@ -83,13 +83,19 @@ Fixpoint wfields (fs : list (bool * goty)) (l : list goval) {struct l} : out byt
       if ex then obind (wrefl t x) (fun b => obind (wfields fr r) (fun b' => OOk (b ++ b'))) else wfields fr r
   | _, _ => OIll
   end.
-Fixpoint rfields (fs : list (bool * goty)) (bs : bytes) : M (list goval * bytes) :=
-  match fs with
-  | [] => ret ([], bs)
-  | (ex, t) :: r =>
-      if ex then bindM (read t bs) (fun p => bindM (rfields r (snd p)) (fun q => ret (fst p :: fst q, snd q)))
-      else bindM (rfields r bs) (fun q => ret (zero t :: fst q, snd q))
-  end.
+Definition rfields (tot : N) : list (bool * goty) -> rst -> M (list goval * rst) :=
+  fix rf (fs : list (bool * goty)) (st : rst) : M (list goval * rst) :=
+    match fs with
+    | [] => ret ([], st)
+    | (ex, t) :: r =>
+        if ex then bindM (read tot t st) (fun p => bindM (rf r (snd p)) (fun q => ret (fst p :: fst q, snd q)))
+        else bindM (rf r st) (fun q => ret (zero t :: fst q, snd q))
+    end.
+Lemma rfields_nil tot st : rfields tot [] st = ret ([], st). Proof. reflexivity. Qed.
+Lemma rfields_cons tot ex t r st : rfields tot ((ex, t) :: r) st =
+  if ex then bindM (read tot t st) (fun p => bindM (rfields tot r (snd p)) (fun q => ret (fst p :: fst q, snd q)))
+  else bindM (rfields tot r st) (fun q => ret (zero t :: fst q, snd q)).
+Proof. reflexivity. Qed.
 Definition typed_list (e : goty) : list goval -> bool :=
   fix all (l : list goval) : bool := match l with [] => true | x :: r => has_typeb e x && all r end.
 Lemma typed_list_cons e x r : typed_list e (x :: r) = has_typeb e x && typed_list e r. Proof. reflexivity. Qed.
@@ -135,8 +141,23 @@ Lemma wrefl_list_eq ty e l : (ty = TSlice true e \/ ty = TSlice false e \/ exist
 Proof. intros [-> | [-> | [n ->]]]; reflexivity. Qed.
 Lemma wrefl_struct_eq fs l : wrefl (TStruct fs) (VStruct l) = wfields fs l.
 Proof. reflexivity. Qed.
-Lemma read_struct_eq fs bs :
-  read (TStruct fs) bs = tick (tsize (TStruct fs), 0) (bindM (rfields fs bs) (fun q => ret (VStruct (fst q), snd q))).
+Lemma read_struct_eq tot fs st :
+  read tot (TStruct fs) st = tick (tsize (TStruct fs), 0) (bindM (rfields tot fs st) (fun q => ret (VStruct (fst q), snd q))).
+Proof. reflexivity. Qed.
+Definition cnt_list (e : goty) : list goval -> N :=
+  fix sum (l : list goval) : N := match l with [] => 0 | x :: r => cnt e x + sum r end.
+Lemma cnt_list_cons e x r : cnt_list e (x :: r) = cnt e x + cnt_list e r. Proof. reflexivity. Qed.
+Fixpoint cnt_fields (fs : list (bool * goty)) (l : list goval) {struct l} : N :=
+  match fs, l with
+  | (ex, t) :: fr, x :: r => (if ex then cnt t x else 0) + cnt_fields fr r
+  | _, _ => 0
+  end.
+Lemma cnt_slice nm e l : cnt (TSlice nm e) (VList l) =
+  if negb nm && (match e with TBasic BU8 => true | _ => false end) then 0 else N.of_nat (length l) + cnt_list e l.
+Proof. reflexivity. Qed.
+Lemma cnt_array n e l : cnt (TArray n e) (VList l) = cnt_list e l.
+Proof. reflexivity. Qed.
+Lemma cnt_struct fs l : cnt (TStruct fs) (VStruct l) = cnt_fields fs l.
 Proof. reflexivity. Qed.
 Lemma has_type_slice nm e l : has_typeb (TSlice nm e) (VList l) = typed_list e l.
 Proof. reflexivity. Qed.
@@ -264,16 +285,24 @@ Proof.
 Qed.
 
 (** * C13 (b): the reader is total on every byte string *)
-Definition rd_good {A} (strict : bool) (rd : bytes -> M (A * bytes)) : Prop :=
-  forall bs, (exists v r h, fst (rd bs) = OOk (v, r) /\ bs = h ++ r /\ (strict = true -> h <> []))
-             \/ (exists e, fst (rd bs) = OErr e).
+(** byte-level readers (primitives) *)
+Definition rdb_good {A} (rd : bytes -> M (A * bytes)) : Prop :=
+  forall bs, (exists v r h, fst (rd bs) = OOk (v, r) /\ bs = h ++ r /\ h <> []) \/ (exists e, fst (rd bs) = OErr e).
+(** readers over the Reader's state: a suffix of the input remains, the element counter never decreases *)
+Definition rd_good {A} (strict : bool) (rd : rst -> M (A * rst)) : Prop :=
+  forall st, (exists v st' h, fst (rd st) = OOk (v, st') /\ fst st = h ++ fst st' /\ (strict = true -> h <> []) /\ snd st <= snd st')
+             \/ (exists e, fst (rd st) = OErr e).
+
+Lemma fst_with_el {A} el (m : M (A * bytes)) :
+  fst (with_el el m) = match fst m with OOk p => OOk (fst p, (snd p, el)) | OErr e => OErr e | OPanic w => OPanic w | OFuel => OFuel | OIll => OIll end.
+Proof. unfold with_el. rewrite fst_bindM. destruct (fst m); reflexivity. Qed.
 
 Lemma rd_uint_good {A} k (f : N -> A) : (1 <= k)%nat ->
-  rd_good true (fun bs => liftR (let* (n, t) := rd_uint k bs in Ok (f n, t))).
+  rdb_good (fun bs => liftR (let* (n, t) := rd_uint k bs in Ok (f n, t))).
 Proof.
   intros Hk bs. rewrite fst_liftR. destruct (rd_uint k bs) as [[n t]|e] eqn:E; cbn [bind of_res].
   - destruct (rd_uint_suffix _ _ _ _ E) as (h & -> & Hl). left. exists (f n), t, h. repeat split; auto.
-    intros _ ->. cbn in Hl. lia.
+    intros ->. cbn in Hl. lia.
   - right; eauto.
 Qed.
 Lemma rd_lp4_good bs : (exists s r h, rd_lp4 bs = Ok (s, r) /\ bs = h ++ r /\ (4 <= length h)%nat /\ (length s <= length h)%nat)
@@ -285,109 +314,132 @@ Proof.
   destruct (take_N_suffix _ _ _ _ E2) as (-> & _). left. exists s, r, (h ++ s). rewrite app_assoc, app_length. repeat split; auto; lia.
 Qed.
 
-Lemma rprim_good b : rd_good true (rprim b).
+Lemma rprim_good b : rdb_good (rprim b).
 Proof.
   destruct b; unfold rprim, rd_u8, rd_u16, rd_u32, rd_u64, rd_f32, rd_f64, rd_u32, rd_u64;
     try (apply rd_uint_good; lia).
   1-4: intros bs; rewrite fst_liftR; unfold rd_i8, rd_i16, rd_i32, rd_i64, rd_u8, rd_u16, rd_u32, rd_u64;
        match goal with |- context [rd_uint ?k bs] => destruct (rd_uint k bs) as [[n t]|e] eqn:E end; cbn [bind of_res];
-       [destruct (rd_uint_suffix _ _ _ _ E) as (h & -> & Hl); left; do 3 eexists; repeat split; eauto; intros _ ->; cbn in Hl; lia|right; eauto].
+       [destruct (rd_uint_suffix _ _ _ _ E) as (h & -> & Hl); left; do 3 eexists; repeat split; eauto; intros ->; cbn in Hl; lia|right; eauto].
   - intros bs; rewrite fst_liftR; unfold rd_bool, rd_u8.
     destruct (rd_uint 1 bs) as [[n t]|e] eqn:E; cbn [bind of_res];
-      [destruct (rd_uint_suffix _ _ _ _ E) as (h & -> & Hl); left; do 3 eexists; repeat split; eauto; intros _ ->; cbn in Hl; lia|right; eauto].
+      [destruct (rd_uint_suffix _ _ _ _ E) as (h & -> & Hl); left; do 3 eexists; repeat split; eauto; intros ->; cbn in Hl; lia|right; eauto].
   - intros bs. rewrite fst_bindM, fst_liftR. unfold rd_string.
     destruct (rd_lp4_good bs) as [(s & r & h & -> & -> & Hl & _)|[e ->]]; cbn [of_res]; [|right; eauto].
-    rewrite fst_tick. cbn [ret fst snd]. left. exists (VS s), r, h. repeat split; auto. intros _ ->. cbn in Hl. lia.
+    rewrite fst_tick. cbn [ret fst snd]. left. exists (VS s), r, h. repeat split; auto. intros ->. cbn in Hl. lia.
 Qed.
 
-Lemma rd_elems_good rd : rd_good true rd -> forall fuel n bs, (length bs < fuel)%nat -> 
-  (exists v r h, fst (rd_elems rd fuel n bs) = OOk (v, r) /\ bs = h ++ r) \/ (exists e, fst (rd_elems rd fuel n bs) = OErr e).
+Lemma with_el_good {A} (rd : bytes -> M (A * bytes)) : rdb_good rd -> rd_good true (fun st => with_el (snd st) (rd (fst st))).
 Proof.
-  intros Hrd. induction fuel as [|f IH]; intros n bs Hl; [lia|].
-  cbn [rd_elems]. destruct (n =? 0); [left; exists [], bs, []; auto|].
-  rewrite fst_bindM. destruct (Hrd bs) as [(v & r & h & -> & -> & Hh)|[e ->]]; [|right; eauto].
+  intros H [bs el]. cbn [fst snd]. rewrite fst_with_el.
+  destruct (H bs) as [(v & r & h & -> & -> & Hh)|[e ->]]; [|right; eauto].
+  left. exists v, (r, el), h. cbn [fst snd]. repeat split; auto. lia.
+Qed.
+
+Lemma rd_elems_good rd : rd_good true rd -> forall fuel n st, (length (fst st) < fuel)%nat ->
+  (exists v st' h, fst (rd_elems rd fuel n st) = OOk (v, st') /\ fst st = h ++ fst st' /\ snd st <= snd st')
+  \/ (exists e, fst (rd_elems rd fuel n st) = OErr e).
+Proof.
+  intros Hrd. induction fuel as [|f IH]; intros n st Hl; [lia|].
+  cbn [rd_elems]. destruct (n =? 0); [left; exists [], st, []; repeat split; auto; lia|].
+  rewrite fst_bindM. destruct (Hrd st) as [(v & st1 & h & -> & E1 & Hh & Hel)|[e ->]]; [|right; eauto].
   rewrite fst_tick, fst_bindM. cbn [snd fst].
-  assert (length r < f)%nat.
-  { rewrite app_length in Hl. destruct h; [exfalso; apply Hh; reflexivity|cbn in Hl; lia]. }
-  destruct (IH (n - 1) r H) as [(vs & r' & h' & -> & ->)|[e ->]]; [|right; eauto].
-  cbn [ret fst snd]. left. exists (v :: vs), r', (h ++ h'). rewrite app_assoc. auto.
+  assert (length (fst st1) < f)%nat.
+  { rewrite E1, app_length in Hl. destruct h; [exfalso; apply Hh; reflexivity|cbn in Hl; lia]. }
+  destruct (IH (n - 1) st1 H) as [(vs & st2 & h' & -> & E2 & Hel2)|[e ->]]; [|right; eauto].
+  cbn [ret fst snd]. left. exists (v :: vs), st2, (h ++ h'). rewrite E1, E2, app_assoc. repeat split; auto. lia.
 Qed.
 
-Lemma rfields_good fs : Forall (fun p => rd_good (negb (wire0 (snd p))) (read (snd p))) fs ->
-  rd_good (negb (wire0_fields fs)) (rfields fs).
+Lemma rfields_good tot fs : Forall (fun p => rd_good (negb (wire0 (snd p))) (read tot (snd p))) fs ->
+  rd_good (negb (wire0_fields fs)) (rfields tot fs).
 Proof.
-  induction 1 as [|[ex t] r Hx Hr IH]; intros bs; cbn [rfields wire0_fields].
-  - left. exists [], bs, []. cbn. repeat split; auto. discriminate.
-  - cbn [snd] in Hx. destruct ex; cbn [negb orb].
-    + rewrite fst_bindM. destruct (Hx bs) as [(v & r1 & h1 & -> & -> & Hh1)|[e ->]]; [|right; eauto].
+  induction 1 as [|[ex t] r Hx Hr IH]; intros st.
+  - rewrite rfields_nil. left. exists [], st, []. cbn. repeat split; auto; try lia; try discriminate.
+  - rewrite rfields_cons. cbn [wire0_fields]. cbn [snd] in Hx. destruct ex; cbn [negb orb].
+    + rewrite fst_bindM. destruct (Hx st) as [(v & st1 & h1 & -> & E1 & Hh1 & Hel1)|[e ->]]; [|right; eauto].
       rewrite fst_bindM. cbn [fst snd].
-      destruct (IH r1) as [(vs & r2 & h2 & -> & -> & Hh2)|[e ->]]; [|right; eauto].
-      cbn [ret fst snd]. left. exists (v :: vs), r2, (h1 ++ h2). rewrite app_assoc. repeat split; auto.
+      destruct (IH st1) as [(vs & st2 & h2 & -> & E2 & Hh2 & Hel2)|[e ->]]; [|right; eauto].
+      cbn [ret fst snd]. left. exists (v :: vs), st2, (h1 ++ h2). rewrite E1, E2, app_assoc. repeat split; auto; try lia.
       intros Hs Heq. apply app_eq_nil in Heq as [-> ->].
       destruct (wire0 t); cbn in Hs; [apply Hh2; auto|apply Hh1; auto].
     + rewrite fst_bindM.
-      destruct (IH bs) as [(vs & r2 & h2 & -> & -> & Hh2)|[e ->]]; [|right; eauto].
-      cbn [ret fst snd]. left. exists (zero t :: vs), r2, h2. repeat split; auto.
+      destruct (IH st) as [(vs & st2 & h2 & -> & E2 & Hh2 & Hel2)|[e ->]]; [|right; eauto].
+      cbn [ret fst snd]. left. exists (zero t :: vs), st2, h2. repeat split; auto.
 Qed.
 
-Lemma read_good ty : rd_good (negb (wire0 ty)) (read ty).
+Lemma read_good tot ty : rd_good (negb (wire0 ty)) (read tot ty).
 Proof.
   induction ty as [b|b| | |nm e IH|n e IH|fs IH|e IH| | | |] using goty_ind';
-    try (intros bs; right; eexists; reflexivity).
-  - apply rprim_good.
-  - intros bs. cbn [read wire0 negb].
+    try (intros st; right; eexists; reflexivity).
+  - exact (with_el_good (rprim b) (rprim_good b)).
+  - intros [bs el]. cbn [read wire0 negb fst snd].
     destruct (negb nm && match e with TBasic BU8 => true | _ => false end).
-    + rewrite fst_bindM, fst_liftR.
+    + rewrite fst_with_el, fst_bindM, fst_liftR.
       destruct (rd_lp4_good bs) as [(s & r & h & -> & -> & Hl & _)|[e' ->]]; cbn [of_res]; [|right; eauto].
-      rewrite fst_tick. cbn [ret fst snd]. left. do 3 eexists. repeat split; eauto. intros _ ->. cbn in Hl. lia.
+      rewrite fst_tick. cbn [ret fst snd]. left. exists (VList (map VN s)), (r, el), h. cbn [fst snd]. repeat split; auto; try lia.
+      intros _ ->. cbn in Hl. lia.
     + rewrite fst_bindM, fst_liftR. unfold rd_u32.
       destruct (rd_uint 4 bs) as [[n t]|e'] eqn:E; cbn [of_res]; [|right; eauto].
       destruct (rd_uint_suffix _ _ _ _ E) as (h & -> & Hl). cbn [fst snd].
-      destruct (N.of_nat (length t) <? n); [right; eexists; reflexivity|]. rewrite fst_tick.
+      destruct (N.of_nat (length t) <? n); [right; eexists; reflexivity|].
+      destruct (tot <? el + n); [right; eexists; reflexivity|]. rewrite fst_tick.
       assert (Hh : h <> []) by (intros ->; cbn in Hl; lia).
       destruct (wire0 e) eqn:W.
-      * cbn [fst]. left. do 3 eexists. repeat split; eauto.
+      * cbn [fst]. left. exists (VList (repeat (zero e) (N.to_nat n))), (t, el + n), h. cbn [fst snd]. repeat split; auto. lia.
       * rewrite fst_bindM.
-        destruct (rd_elems_good (read e) IH (S (length t)) n t ltac:(lia)) as [(vs & r' & h' & -> & ->)|[e' ->]]; [|right; eauto].
-        cbn [ret fst snd]. left. exists (VList vs), r', (h ++ h'). rewrite app_assoc. repeat split; auto.
+        destruct (rd_elems_good (read tot e) IH (S (length t)) n (t, el + n) ltac:(cbn [fst]; lia)) as [(vs & st' & h' & -> & E2 & Hel)|[e' ->]]; [|right; eauto].
+        cbn [ret fst snd] in *. left. exists (VList vs), st', (h ++ h'). rewrite E2, app_assoc. repeat split; auto; try lia.
         intros _ Heq. apply app_eq_nil in Heq as [-> _]. apply Hh; reflexivity.
-  - intros bs. cbn [read wire0 negb]. rewrite fst_tick, fst_bindM, fst_liftR. unfold rd_u32.
+  - intros [bs el]. cbn [read wire0 negb fst snd]. rewrite fst_tick, fst_bindM, fst_liftR. unfold rd_u32.
     destruct (rd_uint 4 bs) as [[m t]|e'] eqn:E; cbn [of_res]; [|right; eauto].
     destruct (rd_uint_suffix _ _ _ _ E) as (h & -> & Hl). cbn [fst snd].
     assert (Hh : h <> []) by (intros ->; cbn in Hl; lia).
     destruct (negb (m =? n)); [right; eexists; reflexivity|].
     destruct (wire0 e) eqn:W.
-    + cbn [fst]. left. do 3 eexists. repeat split; eauto.
+    + cbn [fst]. left. exists (VList (repeat (zero e) (N.to_nat n))), (t, el), h. cbn [fst snd]. repeat split; auto. lia.
     + rewrite fst_bindM.
-      destruct (rd_elems_good (read e) IH (S (length t)) n t ltac:(lia)) as [(vs & r' & h' & -> & ->)|[e' ->]]; [|right; eauto].
-      cbn [ret fst snd]. left. exists (VList vs), r', (h ++ h'). rewrite app_assoc. repeat split; auto.
+      destruct (rd_elems_good (read tot e) IH (S (length t)) n (t, el) ltac:(cbn [fst]; lia)) as [(vs & st' & h' & -> & E2 & Hel)|[e' ->]]; [|right; eauto].
+      cbn [ret fst snd] in *. left. exists (VList vs), st', (h ++ h'). rewrite E2, app_assoc. repeat split; auto.
       intros _ Heq. apply app_eq_nil in Heq as [-> _]. apply Hh; reflexivity.
-  - intros bs. rewrite read_struct_eq, wire0_struct, fst_tick, fst_bindM.
-    destruct (rfields_good fs IH bs) as [(vs & r & h & -> & -> & Hh)|[e ->]]; [|right; eauto].
-    cbn [ret fst snd]. left. exists (VStruct vs), r, h. auto.
+  - intros st. rewrite read_struct_eq, wire0_struct, fst_tick, fst_bindM.
+    destruct (rfields_good tot fs IH st) as [(vs & st' & h & -> & E & Hh & Hel)|[e ->]]; [|right; eauto].
+    cbn [ret fst snd]. left. exists (VStruct vs), st', h. auto.
 Qed.
 
-Lemma read_total ty bs :
-  (exists v r h, fst (read ty bs) = OOk (v, r) /\ bs = h ++ r /\ (wire0 ty = false -> h <> [])) \/ (exists e, fst (read ty bs) = OErr e).
+Lemma read_total tot ty st :
+  (exists v st' h, fst (read tot ty st) = OOk (v, st') /\ fst st = h ++ fst st' /\ (wire0 ty = false -> h <> []) /\ snd st <= snd st')
+  \/ (exists e, fst (read tot ty st) = OErr e).
 Proof.
-  destruct (read_good ty bs) as [(v & r & h & H1 & H2 & H3)|H]; [left|right; exact H].
-  exists v, r, h. repeat split; auto. intros W. apply H3. rewrite W. reflexivity.
+  destruct (read_good tot ty st) as [(v & st' & h & H1 & H2 & H3 & H4)|H]; [left|right; exact H].
+  exists v, st', h. repeat split; auto. intros W. apply H3. rewrite W. reflexivity.
 Qed.
-Lemma read_okerr ty bs : okerr (fst (read ty bs)).
-Proof. destruct (read_total ty bs) as [(v & r & h & -> & _)|[e ->]]; auto. Qed.
-
-Lemma read_into_total tys : forall bs,
-  (exists vs r h, fst (read_into tys bs) = OOk (vs, r) /\ bs = h ++ r /\ length vs = length tys) \/ (exists e, fst (read_into tys bs) = OErr e).
+Lemma read_okerr tot ty st : okerr (fst (read tot ty st)).
+Proof. destruct (read_total tot ty st) as [(v & r & h & -> & _)|[e ->]]; auto. Qed.
+(** a fresh Reader over [bs] *)
+Lemma read0_total ty bs :
+  (exists v r el h, fst (read0 ty bs) = OOk (v, (r, el)) /\ bs = h ++ r /\ (wire0 ty = false -> h <> []))
+  \/ (exists e, fst (read0 ty bs) = OErr e).
 Proof.
-  induction tys as [|t r IH]; intros bs; cbn [read_into].
-  - left. exists [], bs, []. auto.
-  - rewrite fst_bindM. destruct (read_total t bs) as [(v & r1 & h1 & -> & -> & _)|[e ->]]; [|right; eauto].
-    rewrite fst_bindM. cbn [fst snd]. destruct (IH r1) as [(vs & r2 & h2 & -> & -> & Hl)|[e ->]]; [|right; eauto].
-    cbn [ret fst snd]. left. exists (v :: vs), r2, (h1 ++ h2). rewrite app_assoc. cbn [length]. auto.
+  unfold read0. destruct (read_total (N.of_nat (length bs)) ty (fresh bs)) as [(v & [r el] & h & H1 & H2 & H3 & _)|H]; [left|right; exact H].
+  exists v, r, el, h. cbn [fresh fst] in H2. auto.
+Qed.
+
+Lemma read_into_total tot tys : forall st,
+  (exists vs st' h, fst (read_into tot tys st) = OOk (vs, st') /\ fst st = h ++ fst st' /\ length vs = length tys)
+  \/ (exists e, fst (read_into tot tys st) = OErr e).
+Proof.
+  induction tys as [|t r IH]; intros st; cbn [read_into].
+  - left. exists [], st, []. auto.
+  - rewrite fst_bindM. destruct (read_total tot t st) as [(v & st1 & h1 & -> & E1 & _)|[e ->]]; [|right; eauto].
+    rewrite fst_bindM. cbn [fst snd]. destruct (IH st1) as [(vs & st2 & h2 & -> & E2 & Hl)|[e ->]]; [|right; eauto].
+    cbn [ret fst snd]. left. exists (v :: vs), st2, (h1 ++ h2). rewrite E1, E2, app_assoc. cbn [length]. auto.
 Qed.
 
 Lemma read_call_total tg bs : okerr (read_call tg bs).
-Proof. destruct tg as [ty|ty|]; cbn [read_call]; auto. apply read_okerr. Qed.
+Proof.
+  destruct tg as [ty|ty|]; cbn [read_call]; auto.
+  destruct (read_okerr (N.of_nat (length bs)) ty (fresh bs)) as [[[v st] H]|[e H]]; unfold read0; rewrite H; auto.
+Qed.
 
 (** * C12: round trip *)
 Lemma nonempty_length {A} (l : list A) k : length l = S k -> l <> [].
@@ -413,55 +465,58 @@ Proof.
   - split; [apply (nonempty_length _ 7), (be_length 8)|]. rewrite fst_liftR, rd_i64_put by exact Hok. reflexivity.
   - split; [apply (nonempty_length _ 3), (be_length 4)|]. rewrite fst_liftR, rd_f32_put by exact Hok. reflexivity.
   - split; [apply (nonempty_length _ 7), (be_length 8)|]. rewrite fst_liftR, rd_f64_put by exact Hok. reflexivity.
-  - split; [discriminate|]. rewrite fst_liftR. change (put_bool b ++ rest) with (put_bool b ++ rest). rewrite rd_bool_put. reflexivity.
+  - split; [discriminate|]. rewrite fst_liftR. rewrite rd_bool_put. reflexivity.
   - cbn [fits] in Hfit. apply N.ltb_lt in Hfit. split.
     + unfold put_string, put_lp4. intros H. apply app_eq_nil in H as [H _]. apply (f_equal (@length N)) in H. rewrite (be_length 4) in H. discriminate H.
     + rewrite fst_bindM, fst_liftR. unfold rd_string, put_string. rewrite rd_lp4_put by exact Hfit. reflexivity.
 Qed.
 
-(** the statement proved by induction on the type *)
+(** the statement proved by induction on the type.  [cnt ty v] slice elements are charged to the Reader's
+    element budget; a value of a type that occupies wire bytes has more encoding bytes than counted elements *)
 Definition RT (ty : goty) : Prop := forall v,
   has_typeb ty v = true -> fits ty v = true ->
   exists b, wrefl ty v = OOk b
-            /\ (if wire0 ty then b = [] /\ norm ty v = zero ty else b <> [])
-            /\ forall rest, fst (read ty (b ++ rest)) = OOk (norm ty v, rest).
+            /\ (if wire0 ty then b = [] /\ norm ty v = zero ty /\ cnt ty v = 0 else cnt ty v + 1 <= N.of_nat (length b))
+            /\ forall tot rest el, el + cnt ty v <= tot ->
+                 fst (read tot ty (b ++ rest, el)) = OOk (norm ty v, (rest, el + cnt ty v)).
 
 Lemma N_of_nat_S_pred k : N.of_nat (S k) - 1 = N.of_nat k.
 Proof. lia. Qed.
 
 (** elements of a slice/array whose element type is not wire0 *)
-Lemma elems_rt e : RT e -> wire0 e = false -> forall l,
+Lemma elems_rt tot e : RT e -> wire0 e = false -> forall l,
   typed_list e l = true -> fits_list e l = true ->
-  exists b, wlist e l = OOk b /\ (length l <= length b)%nat
-            /\ forall rest fuel, (length l <= fuel)%nat ->
-                 fst (rd_elems (read e) fuel (N.of_nat (length l)) (b ++ rest)) = OOk (norm_list e l, rest).
+  exists b, wlist e l = OOk b /\ N.of_nat (length l) + cnt_list e l <= N.of_nat (length b)
+            /\ forall rest el fuel, (length l <= fuel)%nat -> el + cnt_list e l <= tot ->
+                 fst (rd_elems (read tot e) fuel (N.of_nat (length l)) (b ++ rest, el)) = OOk (norm_list e l, (rest, el + cnt_list e l)).
 Proof.
   intros He W. induction l as [|x r IH]; intros Ht Hf.
-  - exists []. split; [reflexivity|]. split; [cbn; lia|]. intros rest fuel _. destruct fuel; reflexivity.
+  - exists []. split; [reflexivity|]. split; [cbn; lia|]. intros rest el fuel _ _. cbn [cnt_list]. rewrite N.add_0_r. destruct fuel; reflexivity.
   - rewrite typed_list_cons in Ht. rewrite fits_list_cons in Hf.
     apply andb_prop in Ht as [Ht1 Ht2]. apply andb_prop in Hf as [Hf1 Hf2].
     destruct (He x Ht1 Hf1) as (bx & Hwx & Hne & Hrx). rewrite W in Hne.
     destruct (IH Ht2 Hf2) as (br & Hwr & Hlen & Hrr).
     exists (bx ++ br). rewrite wlist_cons, Hwx. cbn [obind]. rewrite Hwr. cbn [obind]. split; [reflexivity|].
-    split. { rewrite app_length. cbn [length]. destruct bx; [contradiction|cbn [length]; lia]. }
-    intros rest fuel Hfuel. cbn [length] in *. destruct fuel as [|f]; [lia|].
+    rewrite cnt_list_cons. split. { rewrite app_length. cbn [length]. lia. }
+    intros rest el fuel Hfuel Hb. cbn [length] in *. destruct fuel as [|f]; [lia|].
     cbn [rd_elems]. replace (N.of_nat (S (length r)) =? 0) with false by lia.
-    rewrite fst_bindM, <- app_assoc, Hrx, fst_tick, fst_bindM. cbn [fst snd].
-    rewrite N_of_nat_S_pred, Hrr by lia. cbn [ret fst snd]. rewrite norm_list_cons. reflexivity.
+    rewrite fst_bindM, <- app_assoc, Hrx by lia. rewrite fst_tick, fst_bindM. cbn [fst snd].
+    rewrite N_of_nat_S_pred, Hrr by lia. cbn [ret fst snd]. rewrite norm_list_cons.
+    replace (el + cnt e x + cnt_list e r) with (el + (cnt e x + cnt_list e r)) by lia. reflexivity.
 Qed.
 
 (** elements of a wire0 type: nothing is written, the reader does not look at the input *)
 Lemma elems_wire0 e : RT e -> wire0 e = true -> forall l,
   typed_list e l = true -> fits_list e l = true ->
-  wlist e l = OOk [] /\ norm_list e l = repeat (zero e) (length l).
+  wlist e l = OOk [] /\ norm_list e l = repeat (zero e) (length l) /\ cnt_list e l = 0.
 Proof.
-  intros He W. induction l as [|x r IH]; intros Ht Hf; [split; reflexivity|].
+  intros He W. induction l as [|x r IH]; intros Ht Hf; [repeat split; reflexivity|].
   rewrite typed_list_cons in Ht. rewrite fits_list_cons in Hf.
   apply andb_prop in Ht as [Ht1 Ht2]. apply andb_prop in Hf as [Hf1 Hf2].
-  destruct (He x Ht1 Hf1) as (bx & Hwx & Hne & _). rewrite W in Hne. destruct Hne as [-> Hz].
-  destruct (IH Ht2 Hf2) as [Hwr Hnr].
+  destruct (He x Ht1 Hf1) as (bx & Hwx & Hne & _). rewrite W in Hne. destruct Hne as (-> & Hz & Hc).
+  destruct (IH Ht2 Hf2) as (Hwr & Hnr & Hcr).
   rewrite wlist_cons, Hwx. cbn [obind]. rewrite Hwr. cbn [obind app]. split; [reflexivity|].
-  rewrite norm_list_cons, Hz, Hnr. reflexivity.
+  rewrite norm_list_cons, Hz, Hnr, cnt_list_cons, Hc, Hcr. split; reflexivity.
 Qed.
 
 (** []byte: the type switch's fast paths and the reflective path agree *)
@@ -479,434 +534,126 @@ Proof.
   rewrite IH by exact H2. destruct x; try discriminate H1. reflexivity.
 Qed.
 
-Lemma fields_rt fs : Forall (fun p => supported (snd p) = true -> RT (snd p)) fs -> supported_fields fs = true -> forall l,
+Lemma fields_rt tot fs : Forall (fun p => supported (snd p) = true -> RT (snd p)) fs -> supported_fields fs = true -> forall l,
   typed_fields fs l = true -> fits_fields fs l = true ->
   exists b, wfields fs l = OOk b
-            /\ (if wire0_fields fs then b = [] /\ norm_fields fs l = zero_fields fs else b <> [])
-            /\ forall rest, fst (rfields fs (b ++ rest)) = OOk (norm_fields fs l, rest).
+            /\ (if wire0_fields fs then b = [] /\ norm_fields fs l = zero_fields fs /\ cnt_fields fs l = 0
+                else cnt_fields fs l + 1 <= N.of_nat (length b))
+            /\ cnt_fields fs l <= N.of_nat (length b)
+            /\ forall rest el, el + cnt_fields fs l <= tot ->
+                 fst (rfields tot fs (b ++ rest, el)) = OOk (norm_fields fs l, (rest, el + cnt_fields fs l)).
 Proof.
   induction 1 as [|[ex t] fr Hx Hr IH]; intros Hs l Ht Hf.
-  - destruct l; [|discriminate Ht]. exists []. repeat split; reflexivity.
+  - destruct l; [|discriminate Ht]. exists []. cbn [wfields wire0_fields norm_fields zero_fields cnt_fields length].
+    repeat split; try reflexivity; try lia. intros rest el _. rewrite rfields_nil, N.add_0_r. reflexivity.
   - destruct l as [|x r]; [discriminate Ht|].
     cbn [typed_fields] in Ht. cbn [fits_fields] in Hf. cbn [supported_fields] in Hs. cbn [snd] in Hx.
     apply andb_prop in Ht as [Ht1 Ht2]. apply andb_prop in Hf as [Hf1 Hf2]. apply andb_prop in Hs as [Hs1 Hs2].
-    destruct (IH Hs2 r Ht2 Hf2) as (br & Hwr & Hw0 & Hrr).
-    cbn [wfields norm_fields zero_fields wire0_fields rfields]. destruct ex; cbn [negb orb] in *.
+    destruct (IH Hs2 r Ht2 Hf2) as (br & Hwr & Hw0 & Hcb & Hrr).
+    cbn [wfields norm_fields zero_fields wire0_fields cnt_fields]. destruct ex; cbn [negb orb andb] in *.
     + destruct (Hx Hs1 x Ht1 Hf1) as (bx & Hwx & Hx0 & Hrx).
-      exists (bx ++ br). rewrite Hwx. cbn [obind]. rewrite Hwr. cbn [obind]. split; [reflexivity|]. split.
+      exists (bx ++ br). rewrite Hwx. cbn [obind]. rewrite Hwr. cbn [obind]. split; [reflexivity|]. rewrite app_length.
+      assert (Hcx : cnt t x <= N.of_nat (length bx)) by (destruct (wire0 t); [destruct Hx0 as (_ & _ & ->); lia|lia]).
+      split; [|split; [lia|]].
       * destruct (wire0 t) eqn:W; cbn [andb].
-        -- destruct Hx0 as [-> Hz]. cbn [app]. destruct (wire0_fields fr); [destruct Hw0 as [-> Hz']; rewrite Hz, Hz'; auto|exact Hw0].
-        -- intros H. apply app_eq_nil in H as [H _]. contradiction.
-      * intros rest. rewrite fst_bindM, <- app_assoc, Hrx, fst_bindM. cbn [fst snd]. rewrite Hrr. reflexivity.
-    + exists br. split; [exact Hwr|]. split.
-      * cbn [andb]. destruct (wire0_fields fr); [destruct Hw0 as [-> Hz']; rewrite Hz'; auto|exact Hw0].
-      * intros rest. rewrite fst_bindM, Hrr. reflexivity.
+        -- destruct Hx0 as (-> & Hz & Hc). cbn [app length]. destruct (wire0_fields fr).
+           ++ destruct Hw0 as (-> & Hz' & Hc'). rewrite Hz, Hz', Hc, Hc'. auto.
+           ++ lia.
+        -- lia.
+      * intros rest el Hb. rewrite rfields_cons, fst_bindM, <- app_assoc, Hrx by lia. rewrite fst_bindM. cbn [fst snd].
+        rewrite Hrr by lia. cbn [ret fst snd]. replace (el + cnt t x + cnt_fields fr r) with (el + (cnt t x + cnt_fields fr r)) by lia. reflexivity.
+    + exists br. split; [exact Hwr|]. split; [|split; [lia|]].
+      * destruct (wire0_fields fr); [destruct Hw0 as (-> & Hz' & Hc'); rewrite Hz', Hc'; auto|lia].
+      * intros rest el Hb. rewrite rfields_cons, fst_bindM, Hrr by lia. cbn [ret fst snd]. rewrite N.add_0_l. reflexivity.
 Qed.
 
 Lemma be4_nonempty n b : put_u32 n ++ b <> [].
 Proof. intros H. apply app_eq_nil in H as [H _]. apply (f_equal (@length N)) in H. unfold put_u32 in H. rewrite be_length in H. discriminate H. Qed.
+Lemma be4_app_length n b : length (put_u32 n ++ b) = (4 + length b)%nat.
+Proof. rewrite app_length. unfold put_u32. rewrite be_length. reflexivity. Qed.
 
 Lemma repeat_to_nat {A} (x : A) k : repeat x (N.to_nat (N.of_nat k)) = repeat x k.
 Proof. rewrite Nat2N.id. reflexivity. Qed.
 
-Lemma elems_cont e l : RT e -> typed_list e l = true -> fits_list e l = true ->
-  exists b, wlist e l = OOk b /\ (wire0 e = false -> (length l <= length b)%nat) /\
-    forall rest,
-      fst (if wire0 e then (OOk (VList (repeat (zero e) (N.to_nat (N.of_nat (length l)))), b ++ rest), (0, N.of_nat (length l)))
-           else bindM (rd_elems (read e) (S (length (b ++ rest))) (N.of_nat (length l)) (b ++ rest)) (fun q => ret (VList (fst q), snd q)))
-      = OOk (VList (norm_list e l), rest).
+(** the continuation of the slice/array case after the length prefix (and the slice's checks) *)
+Lemma elems_cont tot e l : RT e -> typed_list e l = true -> fits_list e l = true ->
+  exists b, wlist e l = OOk b /\ (wire0 e = false -> N.of_nat (length l) + cnt_list e l <= N.of_nat (length b)) /\
+    (wire0 e = true -> cnt_list e l = 0) /\
+    forall rest el, el + cnt_list e l <= tot ->
+      fst (if wire0 e then (OOk (VList (repeat (zero e) (N.to_nat (N.of_nat (length l)))), (b ++ rest, el)), (0, N.of_nat (length l)))
+           else bindM (rd_elems (read tot e) (S (length (b ++ rest))) (N.of_nat (length l)) (b ++ rest, el)) (fun q => ret (VList (fst q), snd q)))
+      = OOk (VList (norm_list e l), (rest, el + cnt_list e l)).
 Proof.
   intros He Ht Hf. destruct (wire0 e) eqn:W.
-  - destruct (elems_wire0 e He W l Ht Hf) as [Hw Hn]. exists []. split; [exact Hw|]. split; [discriminate|].
-    intros rest. cbn [fst app]. rewrite repeat_to_nat, Hn. reflexivity.
-  - destruct (elems_rt e He W l Ht Hf) as (b & Hw & Hl & Hr). exists b. split; [exact Hw|]. split; [auto|].
-    intros rest. rewrite fst_bindM, Hr by (rewrite app_length; lia). reflexivity.
+  - destruct (elems_wire0 e He W l Ht Hf) as (Hw & Hn & Hc). exists []. split; [exact Hw|]. split; [discriminate|]. split; [auto|].
+    intros rest el _. cbn [fst app]. rewrite repeat_to_nat, Hn, Hc, N.add_0_r. reflexivity.
+  - destruct (elems_rt tot e He W l Ht Hf) as (b & Hw & Hl & Hr). exists b. split; [exact Hw|]. split; [auto|]. split; [discriminate|].
+    intros rest el Hb. rewrite fst_bindM, Hr by (try rewrite app_length; lia). reflexivity.
 Qed.
 
 Theorem roundtrip_refl ty : supported ty = true -> RT ty.
 Proof.
   induction ty as [b|b| | |nm e IH|n e IH|fs IH|e IH| | | |] using goty_ind'; intros Hs; try discriminate Hs.
   - intros v Ht Hf. destruct (prim_rt b v [] (has_type_basic _ _ Ht) Hf) as (bs & Hw & Hne & _).
-    exists bs. split; [destruct v; try discriminate Ht; exact Hw|]. split; [exact Hne|].
-    intros rest. destruct (prim_rt b v rest (has_type_basic _ _ Ht) Hf) as (bs' & Hw' & _ & Hr').
-    rewrite Hw in Hw'. injection Hw' as <-. cbn [read]. rewrite Hr'. destruct v; try discriminate Ht; reflexivity.
+    exists bs. split; [destruct v; try discriminate Ht; exact Hw|]. cbn [wire0].
+    assert (Hc : cnt (TBasic b) v = 0) by (destruct v; reflexivity). rewrite Hc.
+    split; [destruct bs; [contradiction|cbn [length]; lia]|].
+    intros tot rest el _. destruct (prim_rt b v rest (has_type_basic _ _ Ht) Hf) as (bs' & Hw' & _ & Hr').
+    rewrite Hw in Hw'. injection Hw' as <-. cbn [read fst snd]. rewrite fst_with_el, Hr'. cbn [fst snd]. rewrite N.add_0_r.
+    destruct v; try discriminate Ht; reflexivity.
   - (* slice *)
     cbn [supported] in Hs. specialize (IH Hs). intros v Ht Hf. cbn [wire0].
     destruct v; try discriminate Ht.
     + (* nil slice: written as length 0, read back as an empty slice *)
-      exists (put_u32 0). split; [reflexivity|]. split; [apply (nonempty_length _ 3), (be_length 4)|].
-      intros rest. cbn [read norm].
+      exists (put_u32 0). split; [reflexivity|]. split; [cbn; lia|].
+      intros tot rest el Hb. cbn [read norm cnt fst snd]. rewrite N.add_0_r.
       destruct (negb nm && match e with TBasic BU8 => true | _ => false end).
-      * rewrite fst_bindM, fst_liftR. change (put_u32 0 ++ rest) with (put_lp4 [] ++ rest). rewrite rd_lp4_put by (cbn; lia). reflexivity.
-      * destruct (elems_cont e [] IH eq_refl eq_refl) as (b & Hw & _ & Hr).
+      * rewrite fst_with_el, fst_bindM, fst_liftR. change (put_u32 0 ++ rest) with (put_lp4 [] ++ rest). rewrite rd_lp4_put by (cbn; lia). reflexivity.
+      * destruct (elems_cont tot e [] IH eq_refl eq_refl) as (b & Hw & _ & _ & Hr).
         rewrite wlist_nil in Hw. injection Hw as <-.
         rewrite fst_bindM, fst_liftR, rd_u32_put by lia. cbn [of_res fst snd].
-        replace (N.of_nat (length rest) <? 0) with false by lia. rewrite fst_tick. exact (Hr rest).
+        replace (N.of_nat (length rest) <? 0) with false by lia. replace (tot <? el + 0) with false by (cbn [cnt] in Hb; lia).
+        rewrite fst_tick. refine (eq_trans (Hr rest (el + 0) _) _); [cbn [cnt cnt_list] in *; lia|].
+        change (norm_list e []) with (@nil goval). change (cnt_list e []) with 0. rewrite !N.add_0_r. reflexivity.
     + rewrite has_type_slice in Ht. rewrite fits_slice in Hf. apply andb_prop in Hf as [Hlen Hf]. apply andb_prop in Hlen as [Hlen Hw0]. apply N.ltb_lt in Hlen.
-      rewrite (wrefl_list_eq (TSlice nm e) e) by (destruct nm; auto). rewrite norm_slice.
+      rewrite (wrefl_list_eq (TSlice nm e) e) by (destruct nm; auto). rewrite norm_slice, cnt_slice.
       destruct (negb nm && match e with TBasic BU8 => true | _ => false end) eqn:Fast.
       * pose proof Fast as Fast'. apply andb_prop in Fast' as [_ Fe].
         destruct e as [b| | | | | | | | | | |]; try discriminate Fe. destruct b; try discriminate Fe.
-        destruct (wlist_bytes l Ht) as [Hw Hm]. rewrite Hw. cbn [obind]. eexists. split; [reflexivity|]. split; [apply be4_nonempty|].
-        intros rest. cbn [read]. rewrite Fast. rewrite fst_bindM, fst_liftR.
+        destruct (wlist_bytes l Ht) as [Hw Hm]. rewrite Hw. cbn [obind]. eexists. split; [reflexivity|].
+        split; [rewrite be4_app_length; lia|].
+        intros tot rest el _. cbn [read fst snd]. rewrite Fast. rewrite fst_with_el, fst_bindM, fst_liftR.
         replace (length l) with (length (map byte_of l)) by apply map_length.
         change (put_u32 (N.of_nat (length (map byte_of l))) ++ map byte_of l) with (put_lp4 (map byte_of l)).
-        rewrite rd_lp4_put by (rewrite map_length; exact Hlen). cbn [of_res fst snd]. rewrite fst_tick. cbn [ret fst].
-        rewrite Hm, norm_list_bytes by exact Ht. reflexivity.
-      * destruct (elems_cont e l IH Ht Hf) as (b & Hw & Hlb & Hr). rewrite Hw. cbn [obind]. eexists. split; [reflexivity|].
-        split; [apply be4_nonempty|]. intros rest. cbn [read]. rewrite Fast.
+        rewrite rd_lp4_put by (rewrite map_length; exact Hlen). cbn [of_res fst snd]. rewrite fst_tick. cbn [ret fst snd].
+        rewrite Hm, norm_list_bytes, N.add_0_r by exact Ht. reflexivity.
+      * destruct (elems_cont 0 e l IH Ht Hf) as (b & Hw & Hlb & Hc0 & _). rewrite Hw. cbn [obind]. eexists. split; [reflexivity|].
+        assert (Hcnt : N.of_nat (length l) + cnt_list e l <= N.of_nat (length b)).
+        { destruct (wire0 e); cbn [negb orb] in Hw0; [apply N.eqb_eq in Hw0; rewrite (Hc0 eq_refl); lia|apply Hlb; reflexivity]. }
+        split; [rewrite be4_app_length; lia|]. intros tot rest el Hb. cbn [read fst snd]. rewrite Fast.
+        destruct (elems_cont tot e l IH Ht Hf) as (b' & Hw' & _ & _ & Hr). rewrite Hw in Hw'. injection Hw' as <-.
         rewrite fst_bindM, fst_liftR, <- app_assoc, rd_u32_put by exact Hlen. cbn [of_res fst snd].
-        replace (N.of_nat (length (b ++ rest)) <? N.of_nat (length l)) with false.
-        2:{ symmetry. apply N.ltb_ge. rewrite app_length. destruct (wire0 e); cbn [negb orb] in Hw0; [apply N.eqb_eq in Hw0; lia|specialize (Hlb eq_refl); lia]. }
-        rewrite fst_tick. exact (Hr rest).
+        replace (N.of_nat (length (b ++ rest)) <? N.of_nat (length l)) with false by (rewrite app_length; lia).
+        replace (tot <? el + N.of_nat (length l)) with false by lia.
+        rewrite fst_tick, Hr by lia. repeat f_equal. lia.
   - (* array *)
     cbn [supported] in Hs. apply andb_prop in Hs as [Hn Hs]. apply N.ltb_lt in Hn. specialize (IH Hs). intros v Ht Hf. cbn [wire0].
     destruct v; try discriminate Ht.
     rewrite has_type_array in Ht. apply andb_prop in Ht as [Hlen Ht]. apply N.eqb_eq in Hlen. rewrite fits_array in Hf.
-    rewrite (wrefl_list_eq (TArray n e) e) by eauto. rewrite norm_array.
-    destruct (elems_cont e l IH Ht Hf) as (b & Hw & _ & Hr). rewrite Hw. cbn [obind]. eexists. split; [reflexivity|].
-    split; [apply be4_nonempty|]. intros rest. cbn [read].
+    rewrite (wrefl_list_eq (TArray n e) e) by eauto. rewrite norm_array, cnt_array.
+    destruct (elems_cont 0 e l IH Ht Hf) as (b & Hw & Hlb & Hc0 & _). rewrite Hw. cbn [obind]. eexists. split; [reflexivity|].
+    assert (Hcnt : cnt_list e l <= N.of_nat (length b)).
+    { destruct (wire0 e); [rewrite (Hc0 eq_refl); lia|specialize (Hlb eq_refl); lia]. }
+    split; [rewrite be4_app_length; lia|]. intros tot rest el Hb. cbn [read fst snd].
+    destruct (elems_cont tot e l IH Ht Hf) as (b' & Hw' & _ & _ & Hr). rewrite Hw in Hw'. injection Hw' as <-.
     rewrite fst_tick, fst_bindM, fst_liftR, <- app_assoc, rd_u32_put by lia. cbn [of_res fst snd].
-    rewrite Hlen, N.eqb_refl. cbn [negb]. rewrite <- Hlen. exact (Hr rest).
+    rewrite Hlen, N.eqb_refl. cbn [negb]. rewrite <- Hlen. exact (Hr rest el Hb).
   - (* struct *)
     rewrite supported_struct in Hs. intros v Ht Hf. destruct v; try discriminate Ht.
     rewrite has_type_struct in Ht. rewrite fits_struct in Hf.
-    destruct (fields_rt fs IH Hs l Ht Hf) as (b & Hw & H0 & Hr). exists b.
-    rewrite wrefl_struct_eq, wire0_struct, norm_struct, zero_struct. split; [exact Hw|]. split.
-    + destruct (wire0_fields fs); [destruct H0 as [-> ->]; auto|exact H0].
-    + intros rest. rewrite read_struct_eq, fst_tick, fst_bindM, Hr. reflexivity.
+    destruct (fields_rt 0 fs IH Hs l Ht Hf) as (b & Hw & H0 & _ & _). exists b.
+    rewrite wrefl_struct_eq, wire0_struct, norm_struct, zero_struct, cnt_struct. split; [exact Hw|]. split.
+    + destruct (wire0_fields fs); [destruct H0 as (-> & -> & ->); auto|exact H0].
+    + intros tot rest el Hb. destruct (fields_rt tot fs IH Hs l Ht Hf) as (b' & Hw' & _ & _ & Hr).
+      rewrite Hw in Hw'. injection Hw' as <-. rewrite read_struct_eq, fst_tick, fst_bindM, Hr by exact Hb. reflexivity.
 Qed.
-
-(** the type switch of Write and writeReflect produce the same bytes on supported types *)
-Lemma write_eq_wrefl ty v : supported ty = true -> has_typeb ty v = true -> write ty v = wrefl ty v.
-Proof.
-  intros Hs Ht. destruct ty as [b| | | |nm e| | | | | | |]; try discriminate Hs; try reflexivity.
-  - cbn [write]. destruct v; try discriminate Ht; reflexivity.
-  - cbn [write]. destruct nm; [reflexivity|]. destruct e as [b| | | | | | | | | | |]; try reflexivity. destruct b; try reflexivity.
-    destruct v; try discriminate Ht; [reflexivity|].
-    rewrite has_type_slice in Ht. rewrite (wrefl_list_eq (TSlice false (TBasic BU8)) (TBasic BU8)) by auto.
-    destruct (wlist_bytes l Ht) as [-> _]. cbn [obind]. unfold put_lp4. rewrite map_length. reflexivity.
-Qed.
-
-Theorem roundtrip ty v : supported ty = true -> has_typeb ty v = true -> fits ty v = true ->
-  exists b, write ty v = OOk b /\ forall rest, fst (read ty (b ++ rest)) = OOk (norm ty v, rest).
-Proof.
-  intros Hs Ht Hf. destruct (roundtrip_refl ty Hs v Ht Hf) as (b & Hw & _ & Hr).
-  exists b. rewrite write_eq_wrefl by assumption. auto.
-Qed.
-
-(** WriteFrom(a...) / ReadInto(&a...) *)
-Definition supported_all (l : list (goty * goval)) : bool :=
-  forallb (fun p => supported (fst p) && has_typeb (fst p) (snd p) && fits (fst p) (snd p)) l.
-Theorem roundtrip_list l : supported_all l = true ->
-  exists b, write_from l = OOk b /\
-            forall rest, fst (read_into (map fst l) (b ++ rest)) = OOk (map (fun p => norm (fst p) (snd p)) l, rest).
-Proof.
-  induction l as [|[t v] r IH]; cbn [supported_all forallb]; intros H.
-  - exists []. split; reflexivity.
-  - apply andb_prop in H as [H Hr]. apply andb_prop in H as [H Hf]. apply andb_prop in H as [Hs Ht]. cbn [fst snd] in *.
-    destruct (roundtrip t v Hs Ht Hf) as (b1 & Hw1 & Hr1). destruct (IH Hr) as (b2 & Hw2 & Hr2).
-    exists (b1 ++ b2). cbn [write_from map fst snd]. rewrite Hw1. cbn [obind]. rewrite Hw2. cbn [obind]. split; [reflexivity|].
-    intros rest. cbn [read_into]. rewrite fst_bindM, <- app_assoc, Hr1, fst_bindM. cbn [fst snd]. rewrite Hr2. reflexivity.
-Qed.
-
-(** when the decoded value is the value itself: no nil slice, no unexported field *)
-Fixpoint canonical (ty : goty) (v : goval) {struct v} : bool :=
-  match v with
-  | VNil => false
-  | VList l =>
-      match ty with
-      | TSlice _ e | TArray _ e => (fix all (l : list goval) : bool := match l with [] => true | x :: r => canonical e x && all r end) l
-      | _ => true
-      end
-  | VStruct l =>
-      match ty with
-      | TStruct fs =>
-          (fix all (fs : list (bool * goty)) (l : list goval) {struct l} : bool :=
-             match fs, l with
-             | [], [] => true
-             | (ex, t) :: fr, x :: r => ex && canonical t x && all fr r
-             | _, _ => false
-             end) fs l
-      | _ => true
-      end
-  | _ => true
-  end.
-Definition canonical_list (e : goty) : list goval -> bool :=
-  fix all (l : list goval) : bool := match l with [] => true | x :: r => canonical e x && all r end.
-Fixpoint canonical_fields (fs : list (bool * goty)) (l : list goval) {struct l} : bool :=
-  match fs, l with
-  | [], [] => true
-  | (ex, t) :: fr, x :: r => ex && canonical t x && canonical_fields fr r
-  | _, _ => false
-  end.
-Lemma norm_canonical v : forall ty, canonical ty v = true -> norm ty v = v.
-Proof.
-  induction v as [n|z|b|s| |l IH|l IH|x IH|t x IH| ] using goval_ind'; intros ty Hc; try reflexivity; try discriminate Hc.
-  - assert (G : forall e, canonical_list e l = true -> norm_list e l = l).
-    { clear Hc. intros e. induction IH as [|x r Hx Hr IH2]; [reflexivity|]. intros H.
-      change (canonical_list e (x :: r)) with (canonical e x && canonical_list e r) in H. apply andb_prop in H as [H1 H2].
-      rewrite norm_list_cons. f_equal; [apply Hx; exact H1|apply IH2; exact H2]. }
-    destruct ty as [| | | |nm e|n e| | | | | |]; try reflexivity.
-    + rewrite norm_slice. f_equal. apply G. exact Hc.
-    + rewrite norm_array. f_equal. apply G. exact Hc.
-  - destruct ty as [| | | | | |fs| | | | |]; try reflexivity.
-    rewrite norm_struct. f_equal. change (canonical_fields fs l = true) in Hc. revert fs Hc.
-    induction IH as [|x r Hx Hr IH2]; intros fs Hc; destruct fs as [|[ex t] fr]; try discriminate Hc; [reflexivity|].
-    cbn [canonical_fields] in Hc. apply andb_prop in Hc as [Hc H3]. apply andb_prop in Hc as [H1 H2]. subst ex.
-    cbn [norm_fields]. f_equal; [apply Hx; exact H2|apply IH2; exact H3].
-Qed.
-
-(** * values excluded from the round trip *)
-Lemma be_mod k n : be k (n mod 256 ^ N.of_nat k) = be k n.
-Proof.
-  revert n. induction k as [|k IH]; intros n; cbn [be]; [reflexivity|].
-  assert (Hp : 256 ^ N.of_nat (S k) = 256 * 256 ^ N.of_nat k) by (rewrite Nat2N.inj_succ, N.pow_succ_r'; reflexivity).
-  rewrite Hp. assert (0 < 256 ^ N.of_nat k) by (apply N.neq_0_lt_0, N.pow_nonzero; lia).
-  set (P := 256 ^ N.of_nat k) in *.
-  assert (Ha : n mod 256 < 256) by (apply N.mod_lt; lia).
-  assert (E1 : n mod (256 * P) / 256 = (n / 256) mod P).
-  { rewrite N.mod_mul_r by lia. symmetry. apply N.div_unique with (n mod 256); lia. }
-  assert (E2 : (n mod (256 * P)) mod 256 = n mod 256).
-  { rewrite N.mod_mul_r by lia. symmetry. apply N.mod_unique with ((n / 256) mod P); lia. }
-  rewrite E1, E2, IH. reflexivity.
-Qed.
-Lemma put_u32_mod n : put_u32 (n mod 4294967296) = put_u32 n.
-Proof. exact (be_mod 4 n). Qed.
-
-(** slices and arrays: the length prefix is uint32(len): 2^32 or more elements are announced modulo 2^32 *)
-Lemma wrefl_length_wraps nm e l :
-  wrefl (TSlice nm e) (VList l) = obind (wlist e l) (fun b => OOk (put_u32 (N.of_nat (length l) mod 4294967296) ++ b)).
-Proof. rewrite (wrefl_list_eq (TSlice nm e) e) by (destruct nm; auto). rewrite put_u32_mod. reflexivity. Qed.
-
-(** strings (and []byte) of 2^32 bytes or more never read back *)
-Lemma string_too_long s rest : 4294967296 <= N.of_nat (length s) -> rd_string (put_string s ++ rest) <> Ok (s, rest).
-Proof.
-  intros Hl H. unfold rd_string, put_string in H. rewrite put_lp4_wraps in H. unfold rd_lp4 in H.
-  rewrite <- app_assoc, rd_u32_put in H by (apply N.mod_lt; lia). cbn [bind] in H.
-  apply take_N_suffix in H as [_ H]. assert (N.of_nat (length s) mod 4294967296 < 4294967296) by (apply N.mod_lt; lia). lia.
-Qed.
-
-(** an array type of 2^32 or more elements can be written but never read *)
-Lemma unbe_acc_lt bs : forall acc, wf_bytes bs = true -> unbe_acc acc bs < (acc + 1) * 256 ^ N.of_nat (length bs).
-Proof.
-  induction bs as [|b r IH]; intros acc Hwf; cbn [unbe_acc length].
-  - change (256 ^ N.of_nat 0) with 1. lia.
-  - cbn [wf_bytes forallb] in Hwf. apply andb_prop in Hwf as [Hb Hwf]. unfold wf_byte in Hb.
-    specialize (IH (acc * 256 + b) Hwf).
-    assert (Hp : 256 ^ N.of_nat (S (length r)) = 256 * 256 ^ N.of_nat (length r)) by (rewrite Nat2N.inj_succ, N.pow_succ_r'; reflexivity).
-    rewrite Hp. assert (0 < 256 ^ N.of_nat (length r)) by (apply N.neq_0_lt_0, N.pow_nonzero; lia). nia.
-Qed.
-Lemma wf_bytes_firstn k bs : wf_bytes bs = true -> wf_bytes (firstn k bs) = true.
-Proof.
-  revert k; induction bs as [|b r IH]; intros k H; destruct k; try reflexivity.
-  cbn [firstn wf_bytes forallb] in *. apply andb_prop in H as [H1 H2]. rewrite H1. cbn [andb]. apply IH. exact H2.
-Qed.
-Lemma rd_u32_lt bs m t : wf_bytes bs = true -> rd_u32 bs = Ok (m, t) -> m < 4294967296.
-Proof.
-  intros Hwf H. unfold rd_u32, rd_uint, take_n in H. destruct (Nat.leb_spec 4 (length bs)); [|discriminate H].
-  cbn [bind] in H. injection H as <- _. unfold unbe.
-  pose proof (unbe_acc_lt (firstn 4 bs) 0 (wf_bytes_firstn 4 bs Hwf)) as G.
-  rewrite firstn_length_le in G by assumption. change (256 ^ N.of_nat 4) with 4294967296 in G.
-  change (unbe_acc 0 (firstn 4 bs) < 4294967296). lia.
-Qed.
-Lemma array_too_long n e bs : 4294967296 <= n -> wf_bytes bs = true -> forall v r, fst (read (TArray n e) bs) <> OOk (v, r).
-Proof.
-  intros Hn Hwf v r. cbn [read]. rewrite fst_tick, fst_bindM, fst_liftR.
-  destruct (rd_u32 bs) as [[m t]|e'] eqn:E; cbn [of_res]; [|discriminate].
-  apply rd_u32_lt in E; [|exact Hwf]. cbn [fst snd]. replace (m =? n) with false by lia. discriminate.
-Qed.
-
-(** * C13 (b): allocation and work *)
-Definition remN {A} (o : out (A * bytes)) : N := match o with OOk (_, r) => N.of_nat (length r) | _ => 0 end.
-(** bytes requested from the allocator + loop iterations *)
-Definition work {A} (m : M A) : N := fst (snd m) + snd (snd m).
-(** "work + a * remaining <= a * available + K", and the remaining input is not longer than the available *)
-Definition cw {A} (m : M (A * bytes)) (a L K : N) : Prop :=
-  work m + a * remN (fst m) <= a * L + K /\ remN (fst m) <= L.
-
-Lemma cw_weaken {A} (m : M (A * bytes)) a L K a' K' : cw m a L K -> a <= a' -> K <= K' -> cw m a' L K'.
-Proof.
-  unfold cw. intros [H1 H2] Ha HK. split; [|exact H2].
-  replace a' with (a + (a' - a)) by lia. set (d := a' - a).
-  assert (d * remN (fst m) <= d * L) by (apply N.mul_le_mono_l; exact H2). nia.
-Qed.
-Lemma work_bindM {A B} (m : M A) (f : A -> M B) :
-  work (bindM m f) = match fst m with OOk a => work m + work (f a) | _ => work m end.
-Proof. unfold work. rewrite snd_bindM. destruct (fst m); try reflexivity. unfold cadd. cbn [fst snd]. lia. Qed.
-Lemma work_tick {A} c (m : M A) : work (tick c m) = fst c + snd c + work m.
-Proof. unfold work. rewrite snd_tick. unfold cadd. cbn [fst snd]. lia. Qed.
-
-Lemma cw_bind {A B} (m : M (A * bytes)) (f : A * bytes -> M (B * bytes)) a L K1 K2 :
-  cw m a L K1 -> (forall x r, fst m = OOk (x, r) -> cw (f (x, r)) a (N.of_nat (length r)) K2) ->
-  cw (bindM m f) a L (K1 + K2).
-Proof.
-  unfold cw. intros [H1 H2] Hf. rewrite fst_bindM, work_bindM.
-  destruct (fst m) as [[x r]| | | |] eqn:E; cbn [remN] in *; try lia.
-  destruct (Hf x r eq_refl) as [G1 G2]. split; lia.
-Qed.
-Lemma cw_tick {A} (m : M (A * bytes)) c a L K : cw m a L K -> cw (tick c m) a L (fst c + snd c + K).
-Proof. unfold cw. rewrite fst_tick, work_tick. lia. Qed.
-Lemma cw_ret {A} (x : A) r a L : N.of_nat (length r) <= L -> cw (ret (x, r)) a L 0.
-Proof. unfold cw, work, ret. cbn [fst snd remN]. nia. Qed.
-Lemma cw_fail {A} e a L : cw (@failM (A * bytes) e) a L 0.
-Proof. unfold cw, work, failM. cbn [fst snd remN]. lia. Qed.
-
-Lemma cw_u32 bs a : cw (liftR (rd_u32 bs)) a (N.of_nat (length bs)) 0.
-Proof.
-  unfold cw, work, liftR, rd_u32. cbn [fst snd]. destruct (rd_uint 4 bs) as [[n t]|e] eqn:E; cbn [of_res remN]; [|lia].
-  destruct (rd_uint_suffix _ _ _ _ E) as (h & -> & _). rewrite app_length. nia.
-Qed.
-
-Lemma cw_rprim b bs : cw (rprim b bs) 2 (N.of_nat (length bs)) 0.
-Proof.
-  destruct b; unfold rprim, rd_u8, rd_u16, rd_u32, rd_u64, rd_f32, rd_f64, rd_u32, rd_u64, rd_i8, rd_i16, rd_i32, rd_i64, rd_bool, rd_u8, rd_u16, rd_u32, rd_u64.
-  1-11: unfold cw, work, liftR; cbn [fst snd];
-        match goal with |- context [rd_uint ?k ?x] => destruct (rd_uint k x) as [[n t]|e] eqn:E end; cbn [bind of_res remN]; try lia;
-        destruct (rd_uint_suffix _ _ _ _ E) as (h & -> & _); rewrite app_length; lia.
-  unfold cw. rewrite fst_bindM, work_bindM, fst_liftR. unfold rd_string.
-  destruct (rd_lp4_good bs) as [(s & r & h & -> & -> & Hl & Hs)|[e ->]]; cbn [of_res remN]; unfold work, liftR, ret, tick, cadd; cbn [fst snd remN]; [|lia].
-  rewrite !app_length. lia.
-Qed.
-
-(** the element loop: each element costs at most [a] per byte it consumes plus [K]; it consumes at least one
-    byte when it succeeds; so the whole loop costs at most [a + K + 1] per byte, whatever the count [n] *)
-Lemma cw_elems rd a K : rd_good true rd -> (forall bs, cw (rd bs) a (N.of_nat (length bs)) K) ->
-  forall fuel n bs,
-    cw (rd_elems rd fuel n bs) (a + K + 1) (N.of_nat (length bs)) K
-    /\ (forall vs r, fst (rd_elems rd fuel n bs) = OOk (vs, r) -> n + N.of_nat (length r) <= N.of_nat (length bs)).
-Proof.
-  intros Hg Hrd. induction fuel as [|f IH]; intros n bs; cbn [rd_elems]; destruct (N.eqb_spec n 0) as [->|Hn].
-  - split; [apply cw_ret; lia|]. intros vs r H. injection H as _ <-. lia.
-  - split; [unfold cw, work; cbn [fst snd remN]; lia|discriminate].
-  - split; [apply cw_ret; lia|]. intros vs r H. injection H as _ <-. lia.
-  - specialize (Hrd bs). destruct Hrd as [H1 H2].
-    destruct (fst (rd bs)) as [[v r]| | | |] eqn:E.
-    2-5: split; [unfold cw; rewrite fst_bindM, work_bindM, E; cbn [remN] in *; nia|rewrite fst_bindM, E; discriminate].
-    cbn [remN] in H1, H2.
-    assert (Hprog : N.of_nat (length r) + 1 <= N.of_nat (length bs)).
-    { destruct (Hg bs) as [(v' & r' & h & E' & -> & Hh)|[e E']]; [|rewrite E in E'; discriminate].
-      rewrite E in E'. injection E' as <- <-. rewrite app_length. destruct h; [exfalso; apply Hh; reflexivity|cbn [length]; lia]. }
-    destruct (IH (n - 1) r) as [[G1 G2] G3].
-    split.
-    + unfold cw. rewrite fst_bindM, work_bindM, E. cbn [fst snd]. rewrite fst_tick, work_tick, fst_bindM, work_bindM.
-      destruct (fst (rd_elems rd f (n - 1) r)) as [[vs r']| | | |] eqn:E2; cbn [remN fst snd] in *;
-        unfold work, ret in *; cbn [fst snd remN] in *; nia.
-    + intros vs r0. rewrite fst_bindM, E. cbn [fst snd]. rewrite fst_tick, fst_bindM.
-      destruct (fst (rd_elems rd f (n - 1) r)) as [[vs' r']| | | |] eqn:E2; try discriminate.
-      cbn [ret fst snd]. intros H. injection H as _ <-. specialize (G3 vs' r' eq_refl). lia.
-Qed.
-
-(** the body of the slice case after the length check *)
-Lemma cw_slice_body rd a K n sz t : rd_good true rd -> (forall bs, cw (rd bs) a (N.of_nat (length bs)) K) -> n <= N.of_nat (length t) ->
-  cw (tick (n * sz, 0) (bindM (rd_elems rd (S (length t)) n t) (fun q => ret (VList (fst q), snd q))))
-     (sz + (a + K + 1)) (N.of_nat (length t)) K.
-Proof.
-  intros Hg Hrd Hn. destruct (cw_elems rd a K Hg Hrd (S (length t)) n t) as [[G1 G2] G3].
-  unfold cw. rewrite fst_tick, work_tick, fst_bindM, work_bindM. cbn [fst snd].
-  destruct (fst (rd_elems rd (S (length t)) n t)) as [[vs r]| | | |] eqn:E; cbn [remN fst snd ret] in *;
-    unfold work, ret in *; cbn [fst snd remN] in *; try nia.
-  specialize (G3 vs r eq_refl). nia.
-Qed.
-
-Lemma cw_fields fs :
-  Forall (fun p => lin_ty (snd p) = true -> forall bs, cw (read (snd p) bs) (kA (snd p)) (N.of_nat (length bs)) (kK (snd p))) fs ->
-  lin_fields fs = true -> forall bs, cw (rfields fs bs) (kA_fields fs) (N.of_nat (length bs)) (kK_fields fs).
-Proof.
-  induction 1 as [|[ex t] r Hx Hr IH]; intros Hs bs; cbn [rfields kK_fields kA_fields].
-  - apply cw_ret. lia.
-  - cbn [lin_fields] in Hs. apply andb_prop in Hs as [Hs1 Hs2]. cbn [snd] in Hx. destruct ex; cbn [negb orb] in Hs1.
-    + replace (kK t + kK_fields r) with (kK t + (kK_fields r + 0)) by lia.
-      apply cw_bind; [eapply cw_weaken; [apply Hx; exact Hs1|lia|lia]|]. intros x r1 _.
-      apply cw_bind; [eapply cw_weaken; [apply IH; exact Hs2|lia|lia]|]. intros q r2 _. cbn [fst snd]. apply cw_ret. lia.
-    + replace (0 + kK_fields r) with (kK_fields r + 0) by lia.
-      apply cw_bind; [eapply cw_weaken; [apply IH; exact Hs2|lia|lia]|]. intros q r2 _. cbn [fst snd]. apply cw_ret. lia.
-Qed.
-
-Theorem cost_linear ty : lin_ty ty = true -> forall bs, cw (read ty bs) (kA ty) (N.of_nat (length bs)) (kK ty).
-Proof.
-  induction ty as [b|b| | |nm e IH|n e IH|fs IH|e IH| | | |] using goty_ind'; intros Hs bs;
-    try (apply cw_fail).
-  - apply cw_rprim.
-  - (* slice *)
-    cbn [lin_ty] in Hs. apply andb_prop in Hs as [W Hs]. specialize (IH Hs).
-    assert (W' : wire0 e = false) by (destruct (wire0 e); [discriminate W|reflexivity]).
-    cbn [read kA kK].
-    destruct (negb nm && match e with TBasic BU8 => true | _ => false end).
-    + unfold cw. rewrite fst_bindM, work_bindM, fst_liftR.
-      destruct (rd_lp4_good bs) as [(s & r & h & -> & -> & Hl & Hsl)|[e' ->]]; cbn [of_res remN]; unfold work, liftR, ret, tick, cadd; cbn [fst snd remN]; [|lia].
-      rewrite !app_length. nia.
-    + replace (kK e + 1) with (0 + (kK e + 1)) by lia.
-      apply cw_bind; [apply cw_u32|]. intros n t _. cbn [fst snd].
-      destruct (N.ltb_spec (N.of_nat (length t)) n); [eapply cw_weaken; [apply cw_fail|lia|lia]|].
-      rewrite W'. eapply cw_weaken; [apply (cw_slice_body (read e) (kA e) (kK e) n (tsize e) t)|lia|lia]; auto.
-      pose proof (read_good e) as G. rewrite W' in G. exact G.
-  - (* array *)
-    cbn [lin_ty] in Hs. specialize (IH Hs). cbn [read kA kK].
-    replace (n * tsize e + n + kK e + 1) with (n * tsize e + 0 + (0 + (n + kK e + 1))) by lia.
-    apply (cw_tick _ (n * tsize e, 0)). apply cw_bind; [apply cw_u32|]. intros m t _. cbn [fst snd].
-    destruct (negb (m =? n)); [eapply cw_weaken; [apply cw_fail|lia|lia]|].
-    destruct (wire0 e) eqn:W.
-    + unfold cw, work. cbn [fst snd remN]. nia.
-    + replace (n + kK e + 1) with (kK e + (n + 1)) by lia.
-      apply cw_bind.
-      * pose proof (read_good e) as G. rewrite W in G.
-        destruct (cw_elems (read e) (kA e) (kK e) G IH (S (length t)) n t) as [G1 _]. exact G1.
-      * intros vs r _. cbn [fst snd]. eapply cw_weaken; [apply cw_ret; lia|lia|lia].
-  - (* struct *)
-    rewrite lin_struct in Hs. rewrite read_struct_eq, kK_struct, kA_struct, tsize_struct.
-    replace (tsize_fields fs + kK_fields fs) with (tsize_fields fs + 0 + (kK_fields fs + 0)) by lia.
-    apply (cw_tick _ (tsize_fields fs, 0)). apply cw_bind; [apply cw_fields; assumption|]. intros q r _. cbn [fst snd]. apply cw_ret. lia.
-Qed.
-
-Corollary work_linear ty bs : lin_ty ty = true -> work (read ty bs) <= kA ty * N.of_nat (length bs) + kK ty.
-Proof. intros H. destruct (cost_linear ty H bs) as [G _]. lia. Qed.
-
-(** arrays: the loop count and the temporary come from the TYPE; the wire only has to agree *)
-Lemma array_cost n e bs : fst (snd (read (TArray n e) bs)) >= n * tsize e /\
-  (forall m t, rd_u32 bs = Ok (m, t) -> m <> n -> read (TArray n e) bs = (OErr EInvalid, (n * tsize e, 0))).
-Proof.
-  split.
-  - cbn [read]. rewrite snd_tick. unfold cadd. cbn [fst]. lia.
-  - intros m t E Hm. cbn [read]. unfold tick, bindM, liftR. rewrite E. cbn [of_res fst snd].
-    replace (m =? n) with false by lia. cbn [negb failM fst snd]. unfold cadd. cbn [fst snd]. f_equal. f_equal; lia.
-Qed.
-
-(** * C13 (c): the caller's variables *)
-Lemma read_var_fail old ty bs : (forall r, snd (read_var old ty bs) <> OOk r) -> fst (read_var old ty bs) = old.
-Proof.
-  unfold read_var. destruct (fst (read ty bs)) as [[v t]| | | |]; cbn [fst snd]; auto. intros H. exfalso. apply (H t). reflexivity.
-Qed.
-Lemma read_var_ok old ty bs r : snd (read_var old ty bs) = OOk r -> fst (read ty bs) = OOk (fst (read_var old ty bs), r).
-Proof.
-  unfold read_var. destruct (fst (read ty bs)) as [[v t]| | | |]; cbn [fst snd]; try discriminate. intros H; injection H as <-. reflexivity.
-Qed.
-
-Lemma read_into_vars_spec olds : forall bs vs o, read_into_vars olds bs = (vs, o) ->
-  (forall r, o = OOk r -> fst (read_into (map fst olds) bs) = OOk (vs, r)) /\
-  ((forall r, o <> OOk r) ->
-     exists pre post dec rest, olds = pre ++ post /\ post <> [] /\
-       fst (read_into (map fst pre) bs) = OOk (dec, rest) /\ vs = dec ++ map snd post /\
-       (forall r, fst (read (fst (hd (TInt, VNil) post)) rest) <> OOk r)).
-Proof.
-  induction olds as [|[t old] r IH]; intros bs vs o; cbn [read_into_vars].
-  - intros H; injection H as <- <-. split.
-    + intros r0 H; injection H as <-. reflexivity.
-    + intros H. exfalso. apply (H bs). reflexivity.
-  - unfold read_var. destruct (fst (read t bs)) as [[v rest]|e|w| |] eqn:E.
-    + destruct (read_into_vars r rest) as [vs' o'] eqn:E2. intros H; injection H as <- <-.
-      destruct (IH rest vs' o' E2) as [I1 I2]. split.
-      * intros r0 ->. cbn [map fst read_into]. rewrite fst_bindM, E, fst_bindM. cbn [fst snd]. rewrite (I1 r0 eq_refl). reflexivity.
-      * intros Hn. destruct (I2 Hn) as (pre & post & dec & rest' & -> & Hp & Hd & -> & Hf).
-        exists ((t, old) :: pre), post, (v :: dec), rest'. repeat split; auto.
-        cbn [map fst read_into]. rewrite fst_bindM, E, fst_bindM. cbn [fst snd]. rewrite Hd. reflexivity.
-    + intros H; injection H as <- <-. split; [discriminate|]. intros _.
-      exists [], ((t, old) :: r), [], bs. repeat split; auto; try discriminate. cbn [hd fst]. rewrite E. discriminate.
-    + intros H; injection H as <- <-. split; [discriminate|]. intros _.
-      exists [], ((t, old) :: r), [], bs. repeat split; auto; try discriminate. cbn [hd fst]. rewrite E. discriminate.
-    + intros H; injection H as <- <-. split; [discriminate|]. intros _.
-      exists [], ((t, old) :: r), [], bs. repeat split; auto; try discriminate. cbn [hd fst]. rewrite E. discriminate.
-    + intros H; injection H as <- <-. split; [discriminate|]. intros _.
-      exists [], ((t, old) :: r), [], bs. repeat split; auto; try discriminate. cbn [hd fst]. rewrite E. discriminate.
-Qed.
-
